@@ -844,7 +844,7 @@ def do_indent(
     newline = "\n"
 
     if isinstance(s, Markup):
-        indention = Markup(indention)
+        indention = escape(indention)
         newline = Markup(newline)
 
     s = s + newline  # this quirk is necessary for splitlines method
